@@ -386,6 +386,10 @@ Denotes(rv, v) ==
 \* the text contains one of the optional Uri escapes whose meaning the published grammar leaves open
 \* (does `\:` denote ":" or the two characters?): such texts are neither written by the spec writer nor judged
 HasOptUriEsc(t) == \E i \in 1..(Len(t) - 1) : t[i] = 92 /\ t[i + 1] \in {58, 47, 63, 35, 91, 93, 64, 38, 61, 59}
+\* a \u escape naming a UTF-16 surrogate: whether a pair of them denotes one astral code point (as this
+\* specification reads it, following the reference implementations' UTF-16 strings) is left open by the grammar
+HasSurrogateEsc(t) == \E i \in 1..(Len(t) - 5) : t[i] = 92 /\ t[i + 1] = 117 /\ Hex4(t, i + 2) >= 55296 /\ Hex4(t, i + 2) <= 57343
+DebatableEsc(t) == HasOptUriEsc(t) \/ HasSurrogateEsc(t)
 
 \* the text t is a sentence of the grammar that denotes v
 ZincDenotes(t, v) == LET r == ZincRead(t) IN r.ok /\ Denotes(r.v, v)
